@@ -10,8 +10,8 @@ prop("C17", "exploration",
      "every receiver and the drain see increasing ids; a Recv that started after an item had been queued never reports "
      "end-of-stream while that item is still queued; errors are end-of-stream, timeout (errors.Is os.ErrDeadlineExceeded) or the "
      "Cancel error; no goroutine is left; also run under the race detector. Non-trivial = >=3 goroutines with at least one "
-     "SetDeadline/Cancel/Close racing; distinct by case hash. Transport half: programs of 2-6 goroutines x 1-5 operations over a "
-     "real Client (Handshake, Read, ReadMsg, Write, WriteMsg, SetDeadline, SetReadDeadline, Close), the accepted Handle (same minus "
+     "SetDeadline/Cancel/Close (transport half: or Roam) racing; distinct by case hash. Transport half: programs of 2-6 goroutines x 1-5 operations over a "
+     "real Client (Handshake, Read - with a 70000-byte buffer or one of 1..100 bytes -, ReadMsg, Write, WriteMsg, WriteMsgBurst, Roam, SetDeadline, SetReadDeadline, Close), the accepted Handle (same minus "
      "Handshake) and the Server (AcceptTimeout, Close) on vlib/simnet against an honest, a silent or a vanishing peer, both handshake "
      "modes, HSTimeout / HSDeadline set or not, fault 'Close of the underlying socket reports an error' on the server's and/or the "
      "client's socket (vlib/simnet FailClose: the socket is closed all the same) in half of the cases, with a yield schedule at the verif-tagged points in Client.Close/Handshake, "
@@ -19,16 +19,39 @@ prop("C17", "exploration",
      "that does not answer has returned after 15 virtual s; three concurrent Close calls per object return within 30 s, and ALL Close "
      "calls of one endpoint within the case (those of the program, concurrent with anything, and the three final ones, i.e. also repeated "
      "later calls) report the same result, whether the socket's close succeeded or failed (Client, Handle, Server); 30 s after client, handle and server were closed no call is blocked; read errors are end-of-stream or timeout errors; "
-     "no goroutine is left; one case in ten is the drain scenario (k messages delivered into the receive queue, then Close: ReadMsg "
-     "returns all k, then end-of-stream); also under the race detector.",
-     ["between two instrumented points the Go scheduler decides the interleaving", "bounds are virtual (synctest)"],
+     "no goroutine is left. Roaming while writing (one case in three; the operations also occur in the other programs): operation "
+     "Roam = the endpoint's socket is rebound to a new address (simnet Rebind) and the endpoint writes a message from there, 1-8 times "
+     "with a pause of 37 us / 1.3 ms / 17 ms - Client: the client roams, the SERVER's receive loop takes up the new address; Handle: the "
+     "server's socket moves, the CLIENT's receive loop takes it up -, operation WriteMsgBurst = 3-40 consecutive WriteMsg calls on the "
+     "other endpoint, and a SLOW SOCKET on the writing side (simnet write gate: every session datagram stays 150 us / 2.5 ms / 30 ms of "
+     "virtual time inside WriteMsgUDP, i.e. inside Handle.send past the session lock; the gate adds no synchronisation between the "
+     "writer and the roaming goroutines, so the race detector sees the two accesses unordered), one side or both, next to 1-4 random "
+     "goroutines (reads, deadlines, closes ...). Labels peer-roams-while-a-write-is-inside-the-socket:Client/:Handle (from the logged "
+     "virtual intervals) ~ 8 % of the cases each, equally in the -race unit. With a slow socket the writers of one endpoint take turns on a "
+     "channel semaphore (a writer waiting for the handle's write MUTEX would freeze the bubble's clock). "
+     "One case in ten is the drain scenario: k messages delivered into the receive queue, then Close, then reads until end-of-stream. A "
+     "quarter of them read with ReadMsg into a large buffer (all k messages, then end-of-stream); the others draw 1-5 messages of "
+     "1..5000 bytes and a list of reader calls - Read or ReadMsg, buffer 1..9 bytes, just shorter than one of the messages, half of one, "
+     "or large - of which a drawn number is made BEFORE Close (so Close also comes after a short Read took part of a message, or after "
+     "ReadMsg answered ErrBufOverflow and kept the message buffered; labels drain:close-with-a-partly-read-message[-and-an-empty-queue]) "
+     "and the rest after it, followed by large-buffer calls. Oracle: the bytes returned by all calls, in order, are exactly the bytes that "
+     "were queued before Close and end-of-stream comes only after all of them (queued-data-lost-on-close, drain:bytes-differ); a ReadMsg "
+     "starting at a message boundary returns exactly that message; ErrBufOverflow only when the buffer is shorter than what is left of "
+     "the message; end-of-stream is repeated. Client and Handle alike. Also under the race detector.",
+     ["between two instrumented points the Go scheduler decides the interleaving", "bounds are virtual (synctest)",
+      "a data race between a write and the receive loop's address update is only visible to the race detector when the two accesses are "
+      "not ordered through the harness: the roam is therefore timed by the virtual clock against a write parked inside the socket, never "
+      "triggered by observing that write",
+      "in cases with a slow socket concurrent writers of one endpoint are serialised by the harness (channel semaphore)"],
      [dict(name="queue", pkg="common", run="^TestVerifC17Queue$", shards=dict(quick=16, thorough=16), thorough_scale=100, timeout=dict(quick=900, thorough=7200)),
       dict(name="queue-race", pkg="common", race=True, run="^TestVerifC17Queue$", shards=dict(quick=16, thorough=16), thorough_scale=30, timeout=dict(quick=900, thorough=7200)),
       dict(name="transport", pkg="transport", run="^TestVerifC17Transport$", shards=dict(quick=16, thorough=16), thorough_scale=50, timeout=dict(quick=900, thorough=7200)),
       dict(name="transport-race", pkg="transport", race=True, run="^TestVerifC17Transport$", shards=dict(quick=16, thorough=16), thorough_scale=10, timeout=dict(quick=900, thorough=7200))],
      text="Generated concurrent programs over the deadline queue and over transport clients, handles and servers run under a virtual "
           "clock with schedule perturbation at instrumented points and under the race detector; termination of every call, "
-          "idempotent close, exactly-once in-order delivery and drain-before-end-of-stream are checked from the recorded history.",
+          "idempotent close, exactly-once in-order delivery and drain-before-end-of-stream (also with read buffers shorter than the "
+          "messages and Close in the middle of a message) are checked from the recorded history; a third of the transport programs let the "
+          "peer roam while the application writes over a slow socket, so that the receive loop's address update meets in-flight writes.",
      note="trusts testing/synctest, the race detector, rapid; interleavings are explored by perturbation, not exhaustively",
      technique="property-based testing (rapid) of concurrent programs with schedule perturbation under a virtual clock + race detector; history oracle",
      design="DESIGN.md section 4, C17")
